@@ -122,9 +122,38 @@ Proof. unfold bn_run_mul. destruct (limit <? cost) eqn:A.
 Lemma bn_pair_walk_not_oog elems oracle t g : bn_pair_walk elems oracle t g <> PErr E_OutOfGas.
 Proof. revert t. induction elems as [|e r IH]; intros t; cbn [bn_pair_walk].
   - destruct t; [discriminate|]. destruct oracle; [|discriminate]. destruct (_ || _); discriminate.
-  - repeat match goal with |- context [if ?c then _ else _] => destruct c end; try discriminate; try apply IH.
-    destruct oracle as [? ?|k]; try apply IH.
-    destruct k as [|k|k]; try apply IH. do 4 (destruct k; try apply IH). discriminate. Qed.
+  - repeat match goal with |- context [if ?c then _ else _] => destruct c end; try discriminate; try apply IH. Qed.
+(* the memo table of Model/Precompile.v is exact *)
+Lemma bn_g2_known_valid : forallb (fun q => let '(a, b, c, d) := q in bn_g2_valid a b c d) bn_g2_known = true.
+Proof. vm_compute. reflexivity. Qed.
+Lemma q4_eqb_eq a b : q4_eqb a b = true -> a = b.
+Proof. destruct a as [[[a1 a2] a3] a4], b as [[[b1 b2] b3] b4]. unfold q4_eqb. intros H.
+  apply Bool.andb_true_iff in H as [H H4]. apply Bool.andb_true_iff in H as [H H3]. apply Bool.andb_true_iff in H as [H1 H2].
+  apply Z.eqb_eq in H1, H2, H3, H4. subst. reflexivity. Qed.
+Lemma bn_g2_valid_memo_exact xi xr yi yr : bn_g2_valid_memo xi xr yi yr = bn_g2_valid xi xr yi yr.
+Proof. unfold bn_g2_valid_memo. destruct (existsb _ bn_g2_known) eqn:E; [|reflexivity].
+  apply existsb_exists in E as (q & Hin & Hq). apply q4_eqb_eq in Hq. subst q.
+  pose proof bn_g2_known_valid as K. rewrite forallb_forall in K. specialize (K _ Hin). cbn beta iota in K. symmetry. exact K. Qed.
+Lemma bn_pair_invalid_g2_fails :
+  forall e rest oracle t g,
+    (forall n, In n (seq 0 6) -> be_to_Z (slice (32 * n) 32 e) < bn_p) ->
+    ((be_to_Z (slice (32 * 0%nat) 32 e) =? 0) && (be_to_Z (slice (32 * 1%nat) 32 e) =? 0) = true \/
+     on_curve bn_F 3 (be_to_Z (slice (32 * 0%nat) 32 e)) (be_to_Z (slice (32 * 1%nat) 32 e)) = true) ->
+    forallb (fun n => be_to_Z (slice (32 * n) 32 e) =? 0) (seq 2 4) = false ->
+    bn_g2_valid (be_to_Z (slice (32 * 2%nat) 32 e)) (be_to_Z (slice (32 * 3%nat) 32 e))
+                (be_to_Z (slice (32 * 4%nat) 32 e)) (be_to_Z (slice (32 * 5%nat) 32 e)) = false ->
+    bn_pair_walk (e :: rest) oracle t g = PErr E_Bn128AffineGFailedToCreate.
+Proof.
+  intros e rest oracle t g Hlt Hg1 Hinf Hbad. cbn [bn_pair_walk].
+  assert (E : existsb (fun n => bn_p <=? be_to_Z (slice (32 * n) 32 e)) (seq 0 6) = false).
+  { destruct (existsb _ (seq 0 6)) eqn:X; [|reflexivity]. apply existsb_exists in X as (n & Hin & Hn).
+    apply Z.leb_le in Hn. specialize (Hlt n Hin). lia. }
+  rewrite E.
+  destruct Hg1 as [H|H].
+  - rewrite H. cbn [negb andb]. rewrite Hinf, bn_g2_valid_memo_exact, Hbad. reflexivity.
+  - rewrite H. rewrite Bool.andb_false_r. rewrite Hinf, bn_g2_valid_memo_exact, Hbad. reflexivity.
+Qed.
+
 Lemma bn_pair_oog_iff input per base limit oracle :
   bn_run_pair input per base limit oracle = PErr E_OutOfGas <-> limit < zlen input / 192 * per + base.
 Proof. unfold bn_run_pair. destruct (limit <? _) eqn:A.
